@@ -257,12 +257,18 @@ func reverse(p []byte) []byte {
 
 // c19Client drives the client side; received records the payloads as the SERVER saw them
 // (filled by the server side) for the model line.
+// one Dialer value configured once and used (by value copy, as applications do) for every
+// compressed session: its Extensions slice is shared by all of them. The offer is the bare
+// extension name, so the server's answer (with both no_context_takeover parameters) differs from it.
+var c19SharedDialer = ws.Dialer{Extensions: []httphead.Option{{Name: []byte("permessage-deflate")}}}
+
 func c19Client(s c19Script, conn duplex, t *transcript) {
 	d := ws.DefaultDialer
-	d.Protocols = s.protos
 	if s.compressed {
-		d.Extensions = []httphead.Option{wsflate.DefaultParameters.Option()}
+		d = c19SharedDialer
+		t.add("c:offer:%s", encOpts(d.Extensions))
 	}
+	d.Protocols = s.protos
 	u, _ := url.Parse("ws://c19.test/s")
 	br, hs, err := d.Upgrade(conn, u)
 	if br != nil {
